@@ -146,6 +146,30 @@ class ShardCtx:
                                 "exc": repr(exc)[:500], "tb": tb[-3000:]})
         self.count("harness_errors")
 
+    def raised(self, monitor, where, exc, witness=None):
+        """An exception escaped from a case.  If the innermost frame that belongs to either
+        the monitored library or the harness is a library frame (the driver only called a
+        public operation with arguments of the documented kind), the operation itself failed:
+        a violation of `monitor`.  Otherwise it is a harness error (-> inconclusive)."""
+        frames = traceback.extract_tb(exc.__traceback__)
+        owner = None
+        for fr in reversed(frames):
+            fn = fr.filename.replace("\\", "/")
+            if "/vmon/" in fn:
+                owner = "harness"
+                break
+            if "/dclab/" in fn:
+                owner = "library"
+                break
+        if owner == "library":
+            tb = "".join(traceback.format_exception(type(exc), exc, exc.__traceback__))
+            self.ev(monitor)
+            w = dict(witness or {})
+            w.update({"where": where, "exc": repr(exc)[:300], "traceback": tb[-1500:]})
+            self.violation(monitor, w, message=f"{where}: the library raised {exc!r}")
+        else:
+            self.error(where, exc)
+
     def result(self):
         return {
             "prop": self.prop, "shard": self.shard, "cases_run": self.cases_run,
